@@ -7,5 +7,5 @@ git -C /repo worktree add -q --detach $wt HEAD || exit 2
 trap "git -C /repo worktree remove --force $wt >/dev/null 2>&1; rm -rf $wt /tmp/try-ev-$$" EXIT
 cd $wt
 git apply $d || { echo PATCH-DOES-NOT-APPLY; exit 1; }
-out=$(/verif/bin/muxlint -repo $wt -evidence /tmp/try-ev-$$ -property $prop -obligations 2>&1)
+out=$(${BIN:-/verif/bin/muxlint} -repo $wt -evidence /tmp/try-ev-$$ -property $prop -obligations 2>&1)
 echo "$(basename $(dirname $d))/$(basename $d): $(echo "$out" | grep -E '^  FAIL|CHECKER-ERROR' | cut -c1-${COLS:-300} | sed 's/^ */    /' | (grep . || echo '    silent'))"
